@@ -49,3 +49,43 @@ def replayer(payload):
     for x in (r['off_shift_dispatch'] + r.get('availability_vs_clock', []))[:3]:
         print('reproduced:', json.dumps(x))
     return bool(r['off_shift_dispatch'] or r.get('availability_vs_clock'))
+
+
+def engine_c17(res, spec, tier, seed, extended=False):
+    """C17, third sentence, through the real pipeline: generated scenarios (fleets, some requests open to all fleets, shifts) run
+    with the built-in Dispatcher; after every step at most one vehicle may be travelling to any request."""
+    import gen_scenario
+    t0 = time.time()
+    n_sc = 6 if tier == 'quick' else 30
+    steps = 70 if tier == 'quick' else 200
+    if extended:
+        n_sc, steps = 16, 120
+    scs = [gen_scenario.write(os.path.join(WORK, 'scen', f'c17_{seed}_{k}'), seed * 7013 + k) for k in range(n_sc)]
+    import concurrent.futures as cf
+    with cf.ThreadPoolExecutor(max_workers=14) as ex:
+        outs = list(ex.map(eng_c01.run_one, [(sc, 0, steps, []) for sc in scs]))
+    for sc, _, r, err in outs:
+        if err:
+            res.add_broken('harness', f'scenario run failed ({sc})', err)
+            continue
+        res.cov['evaluations'] += 1
+        if r.get('two_vehicles_one_request') and not [f for f in res.found if f['kind'] == 'two_vehicles_travelling_to_one_request']:
+            d = dict(r['two_vehicles_one_request'][0], scenario=os.path.basename(os.path.dirname(sc)), count=len(r['two_vehicles_one_request']))
+            res.add_found('two_vehicles_travelling_to_one_request', d, {'engine': 'eng_c17', 'scenario': sc, 'steps': steps, 'seed': seed,
+                                                                         'kind': 'two_vehicles_travelling_to_one_request', 'detail': d})
+    res.notes['eng_c17'] = {'scenarios': n_sc, 'steps': steps, 'wall_s': round(time.time() - t0, 1)}
+
+def replayer_c17(payload):
+    if payload.get('engine') != 'eng_c17':
+        return None
+    import gen_scenario
+    sc = payload['scenario']
+    base = os.path.basename(os.path.dirname(sc))
+    _, sd, k = base.split('_')
+    gen_scenario.write(os.path.dirname(sc), int(sd) * 7013 + int(k))
+    _, _, r, err = eng_c01.run_one((sc, 0, payload['steps'], []))
+    if err:
+        print(err); return None
+    for x in r.get('two_vehicles_one_request', [])[:3]:
+        print('reproduced:', json.dumps(x))
+    return bool(r.get('two_vehicles_one_request'))
